@@ -84,6 +84,8 @@ pub struct Fx {
     roots: BTreeMap<String, SliceRoot>,
     /// (block, slice index, header flag, signer) -> the 64 shreds
     shreds: HashMap<(String, usize, bool, String), Vec<ValidatedShred>>,
+    /// wire bytes of a fixture shred -> (block, slice index, header flag, signer, shred index)
+    by_bytes: HashMap<Vec<u8>, (String, usize, bool, String, usize)>,
 }
 
 impl Fx {
@@ -107,6 +109,7 @@ impl Fx {
             trees: BTreeMap::new(),
             roots: BTreeMap::new(),
             shreds: HashMap::new(),
+            by_bytes: HashMap::new(),
         };
         let mut shredder = RegularShredder::default();
         for (blk, prefix, slot, n) in [("B", "a", 1u64, ns), ("O", "o", 1, ns), ("Z", "z", 2, 1)] {
@@ -144,6 +147,12 @@ impl Fx {
             fx.trees.insert(blk.to_string(), tree);
         }
         assert!(fx.ids["B"].1 != fx.ids["O"].1);
+        for ((src, idx, last, signer), v) in &fx.shreds {
+            for (k, sh) in v.iter().enumerate() {
+                let bytes = wincode::serialize(sh.as_shred()).expect("serialize shred");
+                fx.by_bytes.insert(bytes, (src.clone(), *idx, *last, signer.clone(), k));
+            }
+        }
         fx
     }
 
@@ -308,13 +317,8 @@ impl Fx {
             RepairResponse::Shred(rt, shred) => {
                 let bytes = wincode::serialize(shred).expect("serialize shred");
                 let mut desc = json!({"src": "?", "idx": 0, "g": 0, "last": false, "signer": "?", "dmg": false});
-                'find: for ((src, idx, last, signer), v) in &self.shreds {
-                    for (k, cand) in v.iter().enumerate() {
-                        if wincode::serialize(cand.as_shred()).expect("serialize shred") == bytes {
-                            desc = json!({"src": src, "idx": idx, "g": k / self.gsz, "last": last, "signer": signer, "dmg": false, "k": k});
-                            break 'find;
-                        }
-                    }
+                if let Some((src, idx, last, signer, k)) = self.by_bytes.get(&bytes) {
+                    desc = json!({"src": src, "idx": idx, "g": k / self.gsz, "last": last, "signer": signer, "dmg": false, "k": k});
                 }
                 let want_k = match q {
                     RepairRequestType::Shred(_, _, k) => k.inner(),
